@@ -8,6 +8,7 @@ pub mod c02;
 pub mod c03;
 pub mod c04;
 pub mod c06;
+pub mod c07;
 pub mod c08;
 pub mod c10;
 pub mod c11;
@@ -46,6 +47,7 @@ pub fn run(id: &str, tier: Tier) -> i32 {
         "C03" => c03::run(tier),
         "C04" => c04::run(tier),
         "C06" => c06::run(tier),
+        "C07" => c07::run(tier),
         "C08" => c08::run(tier),
         "C10" => c10::run(tier),
         "C11" => c11::run(tier),
@@ -66,6 +68,7 @@ pub fn replay(id: &str, file: &serde_json::Value) -> i32 {
         "C03" => c03::replay,
         "C04" => c04::replay,
         "C06" => c06::replay,
+        "C07" => c07::replay,
         "C08" => c08::replay,
         "C10" => c10::replay,
         "C11" => c11::replay,
